@@ -7,7 +7,7 @@
 From Coq Require Import ZArith List Bool.
 From OBB Require Model.Trxd Proofs.TrxdBase Proofs.TrxdTx Proofs.TrxdRx Proofs.TrxdRxRT.
 From OBB Require Import Gen.TrxdProto Base.Bits Model.Codec Proofs.CodecInt Proofs.CodecBits Proofs.CodecRT Proofs.CodecDE Proofs.CodecErr
-  Proofs.CodecGood Proofs.CodecSem Proofs.TrxdProtoSpec Proofs.TrxdProtoBits Proofs.TrxdProtoMsg Proofs.TrxdProtoTop Proofs.TrxdProtoAcc Proofs.TrxdProtoP.
+  Proofs.CodecGood Proofs.CodecSem Proofs.TrxdProtoSpec Proofs.TrxdProtoBits Proofs.TrxdProtoMsg Proofs.TrxdProtoTop Proofs.TrxdProtoRfu Proofs.TrxdProtoAcc Proofs.TrxdProtoP.
 Import ListNotations.
 Open Scope Z_scope.
 
@@ -123,17 +123,45 @@ Theorem c17_reserved_ignored : forall chk h h2 rest, 0 <= h < 256 -> 0 <= h2 < 2
 Proof. exact rfu_ignored_all. Qed.
 Print Assumptions c17_reserved_ignored.
 
-(* c17_reserved_ignored_partial: for the RFU bits of a batched sub-PDU header and for the spare octets the statement is
-   at the level of the field decoder (Field.from_bytes of that field), not lifted through the enclosing sequence.
-   Full statement: decode chk pdu_v2_xx (d with those bits changed) = decode chk pdu_v2_xx d. *)
-Theorem c17_reserved_ignored_partial :
+(* ... and end to end through the sequence of batched sub-PDUs: rx2_layout_g m js / tx2_layout_g m a b c ks
+   (Proofs/TrxdProtoRfu.v) are the documented layouts of c17_layout_v2 in which the first octet of the i-th sub-PDU is
+   TN + 8 * j_i (its five RFU bits hold the arbitrary value j_i, each sub-PDU its own), and - for Tx - the three spare octets
+   of the main part are a b c and those of the i-th sub-PDU are k_a k_b k_c of ks_i.  For ANY number of sub-PDUs such a
+   datagram decodes to exactly the message, and to exactly the result, of the layout with zeros there. *)
+Theorem c17_reserved_ignored_sub : forall chk,
+  (forall m js, rx2_ok m -> length js = length (m_subs m) -> Forall (fun j => 0 <= j < 32) js ->
+     decode chk pdu_v2_rx (rx2_layout_g m js) = Ok (rx2_fields m, length (rx2_layout m)) /\
+     decode chk pdu_v2_rx (rx2_layout_g m js) = decode chk pdu_v2_rx (rx2_layout m)) /\
+  (forall m ks, tx2_ok m -> length ks = length (x_subs m) -> Forall (fun k => 0 <= k_rfu k < 32 /\ k_a k = 0 /\ k_b k = 0 /\ k_c k = 0) ks ->
+     decode chk pdu_v2_tx (tx2_layout_g m 0 0 0 ks) = Ok (tx2_fields m, length (tx2_layout m)) /\
+     decode chk pdu_v2_tx (tx2_layout_g m 0 0 0 ks) = decode chk pdu_v2_tx (tx2_layout m)).
+Proof. exact reserved_ignored_sub. Qed.
+Print Assumptions c17_reserved_ignored_sub.
+
+(* the Tx spare octets (any integers; PDUv0Tx / PDUv1Tx have no spare octets), together with the sub-PDU RFU bits *)
+Theorem c17_reserved_ignored_spare : forall chk m a b c ks,
+  tx2_ok m -> length ks = length (x_subs m) -> Forall (fun k => 0 <= k_rfu k < 32) ks ->
+  decode chk pdu_v2_tx (tx2_layout_g m a b c ks) = Ok (tx2_fields m, length (tx2_layout m)) /\
+  decode chk pdu_v2_tx (tx2_layout_g m a b c ks) = decode chk pdu_v2_tx (tx2_layout m).
+Proof. exact reserved_ignored_spare. Qed.
+Print Assumptions c17_reserved_ignored_spare.
+
+(* with zeros in all those places the generalised layouts are the documented ones *)
+Theorem c17_layout_g_zero :
+  (forall m, rx2_layout_g m (map (fun _ => 0) (m_subs m)) = rx2_layout m) /\
+  (forall m, tx2_layout_g m 0 0 0 (map (fun _ => {| k_rfu := 0; k_a := 0; k_b := 0; k_c := 0 |}) (x_subs m)) = tx2_layout m).
+Proof. exact layout_g_zero. Qed.
+Print Assumptions c17_layout_g_zero.
+
+(* the same at the level of the field decoder, for arbitrary (not necessarily well-formed) input *)
+Theorem c17_reserved_ignored_field :
   (forall recd recs e h h' h2 rest, 0 <= h < 256 -> 0 <= h' < 256 -> 0 <= h2 < 256 -> Z.land h 7 = Z.land h' 7 ->
      dec_field recd recs hdr2b e (h' :: h2 :: rest) = dec_field recd recs hdr2b e (h :: h2 :: rest)) /\
   (forall recd recs e a b c a' b' c' rest,
      dec_field recd recs (FSpare (LFix 3) PAlways 0) e (a :: b :: c :: rest) = Ok (e, 3%nat) /\
      dec_field recd recs (FSpare (LFix 3) PAlways 0) e (a' :: b' :: c' :: rest) = Ok (e, 3%nat)).
-Proof. exact (conj sub_rfu_ignored spare_octets_ignored). Qed.
-Print Assumptions c17_reserved_ignored_partial.
+Proof. exact reserved_ignored_field. Qed.
+Print Assumptions c17_reserved_ignored_field.
 
 (* ------------------------------------------------------------------ wrong version *)
 Theorem c17_wrong_version_rejected : forall chk h h2 rest, 0 <= h2 < 256 ->
